@@ -285,6 +285,12 @@ public:
         int total = std::max(B, 0) + C;
         p["split"] = w.chance(0.7) ? w.range(0, total) : -1; // -1: do not split
         p["draw_seed"] = (long long)(w.next() >> 1);
+        if (w.chance(0.3)) { // a second run on the same state object after the caller re-seeded the chains
+            Json rs = Json::object(); rs["how"] = w.chance(0.5) ? "function" : "vector";
+            Json stv = Json::array(); for (int k = 0; k < n * d; k++) stv.push(Json(w.uniform(-0.9, 0.9))); rs["state"] = stv;
+            rs["burn"] = w.range(0, 4); rs["collect"] = w.range(0, 5);
+            p["reseed"] = rs;
+        }
         // faults: endpoint draws attached to draw kinds
         Json inj = Json::array();
         int nf = f.chance(0.25) ? 0 : f.range(1, 3);
@@ -323,7 +329,7 @@ public:
     }
 
     // one complete execution of the list of calls on a fresh state; checks every call against the model
-    bool runCalls(const Json &p, const std::vector<std::pair<int, int>> &calls, Stats &st, Outcome &out, Runner &r, bool check) {
+    bool runCalls(const Json &p, const std::vector<std::pair<int, int>> &calls, Stats &st, Outcome &out, Runner &r, bool check, const Json *reseed = nullptr) {
         setupEnv(r.env, p, st);
         std::string u = r.env.updkind;
         r.builtin_update = u.rfind("builtin-", 0) == 0;
@@ -337,7 +343,17 @@ public:
         r.m = Model(); r.m.state = init;
         std::vector<std::vector<double>> allowed; // initial states + proposals accepted by the domain test
         for (size_t i = 0; i < n; i++) allowed.emplace_back(init.begin() + i * d, init.begin() + (i + 1) * d);
+        size_t callno = 0;
         for (auto const &c : calls) {
+            if (reseed && callno++ == 1) {
+                // the caller re-seeds the chains between two runs on the same state object (both documented overloads);
+                // the next run has to evaluate the probability at the new positions
+                std::vector<double> ns = reseed->at("state").dvec(); ns.resize(n * d, 0.1);
+                if (reseed->gets("how") == "function") { size_t k = 0; r.st->setState([&](double *x) { for (size_t q = 0; q < d; q++) x[q] = ns[k * d + q]; k++; }); st.inc("reach.reseed_by_function"); }
+                else { r.st->setState(ns); st.inc("reach.reseed_by_vector"); }
+                r.m.state = ns; r.m.pdfready = false;
+                for (size_t i = 0; i < n; i++) allowed.emplace_back(ns.begin() + i * d, ns.begin() + (i + 1) * d);
+            }
             r.env.resetLogs();
             size_t h0 = r.st->getNumHistory();
             r.callSample(c.first, c.second);
@@ -409,6 +425,13 @@ public:
             bool same = sameVec(r1.st->getHistory(), r2.st->getHistory()) && sameVec(r1.st->getHistoryPDF(), r2.st->getHistoryPDF()) &&
                         sameBits(r1.st->getAcceptanceRate(), r2.st->getAcceptanceRate()) && sameVec(r1.m.state, r2.m.state) && sameVec(r1.m.pdfv, r2.m.pdfv);
             if (!same) { out.fail("split", "C15/split", "two consecutive runs differ from one run of the combined length under the same stream"); return out; }
+        }
+        if (p.has("reseed") && p.at("reseed").isObj()) {
+            const Json &rs = p.at("reseed");
+            Runner r3; Outcome o3; Stats d3;
+            std::vector<std::pair<int, int>> calls{{B, C}, {(int)rs.geti("burn", 1), (int)rs.geti("collect", 1)}};
+            if (!runCalls(p, calls, st, o3, r3, true, &rs)) { out.fail(o3.cls, o3.signature + "/after-reseed", "(second run after setState) " + o3.detail); return out; }
+            st.inc("runs.reseeded");
         }
         return out;
     }
